@@ -424,6 +424,32 @@ pub struct AttrOpt {
 }
 
 #[derive(Form, Debug, Clone, PartialEq)]
+pub struct AttrTuple {
+    #[form(attr)]
+    pub t: (i32, String),
+    pub n: i32,
+}
+
+#[derive(Form, Debug, Clone, PartialEq)]
+pub struct BodyField {
+    #[form(header)]
+    pub h: i32,
+    #[form(body)]
+    pub b: Vec<i32>,
+}
+
+#[derive(Form, Debug, Clone, PartialEq)]
+pub struct OptStruct {
+    pub o: Option<Plain>,
+    pub n: i32,
+}
+
+#[derive(Form, Debug, Clone, PartialEq)]
+pub struct MapVec {
+    pub m: HashMap<String, Vec<i32>>,
+}
+
+#[derive(Form, Debug, Clone, PartialEq)]
 pub struct HdrBodyVec {
     #[form(header_body)]
     pub v: Vec<i32>,
@@ -505,6 +531,10 @@ pub enum TV {
     AttrMap { m: BTreeMap<String, i32>, n: i32 },
     AttrOpt { o: Option<i32>, n: i32 },
     HdrBodyVec { v: Vec<i32>, n: i32 },
+    AttrTuple { a: i32, b: String, n: i32 },
+    BodyField { h: i32, b: Vec<i32> },
+    OptStruct { o: Option<(i32, String, Option<i64>)>, n: i32 },
+    MapVec { m: BTreeMap<String, Vec<i32>> },
     /// `swimos_model::Timestamp`, microseconds since the epoch (not negative).
     Timestamp(u64),
 }
@@ -596,6 +626,10 @@ impl TV {
             TV::AttrMap { .. } => "struct_attr_map",
             TV::AttrOpt { .. } => "struct_attr_opt",
             TV::HdrBodyVec { .. } => "struct_hdr_body_vec",
+            TV::AttrTuple { .. } => "struct_attr_tuple",
+            TV::BodyField { .. } => "struct_body_field",
+            TV::OptStruct { .. } => "struct_opt_struct",
+            TV::MapVec { .. } => "struct_map_vec",
         }
     }
 
@@ -657,6 +691,10 @@ impl TV {
             TV::AttrMap { m, n } => vis.visit(name, AttrMap { m: m.iter().map(|(k, v)| (k.clone(), *v)).collect(), n: *n }, eq_std),
             TV::AttrOpt { o, n } => vis.visit(name, AttrOpt { o: *o, n: *n }, eq_std),
             TV::HdrBodyVec { v, n } => vis.visit(name, HdrBodyVec { v: v.clone(), n: *n }, eq_std),
+            TV::AttrTuple { a, b, n } => vis.visit(name, AttrTuple { t: (*a, b.clone()), n: *n }, eq_std),
+            TV::BodyField { h, b } => vis.visit(name, BodyField { h: *h, b: b.clone() }, eq_std),
+            TV::OptStruct { o, n } => vis.visit(name, OptStruct { o: o.as_ref().map(|(a, b, c)| Plain { a: *a, b: b.clone(), c: *c }), n: *n }, eq_std),
+            TV::MapVec { m } => vis.visit(name, MapVec { m: m.iter().map(|(k, v)| (k.clone(), v.clone())).collect() }, eq_std),
         }
     }
 
@@ -947,6 +985,32 @@ impl TV {
                 }
                 if *n != 0 {
                     out.push(TV::AttrOpt { o: *o, n: 0 });
+                }
+            }
+            TV::AttrTuple { a, b, n } => {
+                if *a != 0 || !b.is_empty() || *n != 0 {
+                    out.push(TV::AttrTuple { a: 0, b: String::new(), n: 0 });
+                }
+            }
+            TV::BodyField { h, b } => {
+                if !b.is_empty() {
+                    out.push(TV::BodyField { h: *h, b: b[1..].to_vec() });
+                }
+                if *h != 0 {
+                    out.push(TV::BodyField { h: 0, b: b.clone() });
+                }
+            }
+            TV::OptStruct { o, n } => {
+                if o.is_some() {
+                    out.push(TV::OptStruct { o: None, n: *n });
+                    out.push(TV::OptStruct { o: Some((0, String::new(), None)), n: 0 });
+                }
+            }
+            TV::MapVec { m } => {
+                if let Some(k) = m.keys().next().cloned() {
+                    let mut c = m.clone();
+                    c.remove(&k);
+                    out.push(TV::MapVec { m: c });
                 }
             }
             TV::HdrBodyVec { v, n } => {
